@@ -3,6 +3,8 @@ package checks
 import (
 	"encoding/json"
 	"io"
+	"os"
+	"os/exec"
 	"fmt"
 	"strings"
 	"time"
@@ -360,6 +362,80 @@ func sCheckRun(prop string, filter func(name string) bool) func(env *Env) *Resul
 	}
 }
 
+// racePostRun launches the free-running pass in the -race binary.
+func racePostRun(res *Result, tier string) {
+	bin := "/verif/.build/vcheck-race"
+	if _, err := os.Stat(bin); err != nil {
+		res.Notes = append(res.Notes, "race pass skipped: "+bin+" not built")
+		return
+	}
+	secs := "25"
+	if tier == "thorough" {
+		secs = "180"
+	}
+	cmd := exec.Command(bin, "racepass", secs)
+	cmd.Env = append(os.Environ(), "GORACE=halt_on_error=0 exitcode=0", "GOMAXPROCS=16")
+	out, err := cmd.CombinedOutput()
+	text := string(out)
+	if err != nil && !strings.Contains(text, "racepass iterations=") {
+		res.HarnessErr = append(res.HarnessErr, fmt.Sprintf("race pass: %v\n%s", err, truncateStr(text, 2000)))
+		return
+	}
+	var it int
+	if i := strings.LastIndex(text, "racepass iterations="); i >= 0 {
+		fmt.Sscanf(text[i:], "racepass iterations=%d", &it)
+	}
+	res.Count("race_pass_iterations", it)
+	if strings.Contains(text, "RACEPASS-HANG") {
+		res.AddFound(Found{Property: "C16", Kind: "hang", Sig: "hang:free-running", Detail: truncateStr(text, 3000), Core: "hang|free-running pass"})
+	}
+	reports := strings.Split(text, "WARNING: DATA RACE")
+	res.Count("race_reports", len(reports)-1)
+	seen := map[string]bool{}
+	for _, rep := range reports[1:] {
+		if j := strings.Index(rep, "=================="); j > 0 {
+			rep = rep[:j]
+		}
+		site := raceSite(rep)
+		if seen[site] {
+			continue
+		}
+		seen[site] = true
+		raw, _ := json.Marshal(map[string]string{"race": site})
+		res.AddFound(Found{Property: "C16", Kind: "data-race", Sig: "data-race:" + site, Detail: "WARNING: DATA RACE" + truncateStr(rep, 3500), Case: raw, Core: "data-race|" + site})
+	}
+}
+
+// raceSite names a race by the two innermost frames of the code under test.
+func raceSite(rep string) string {
+	var sites []string
+	lines := strings.Split(rep, "\n")
+	for i, l := range lines {
+		if (strings.HasPrefix(l, "Write at") || strings.HasPrefix(l, "Read at") || strings.HasPrefix(l, "Previous write at") || strings.HasPrefix(l, "Previous read at")) && i+1 < len(lines) {
+			for _, f := range lines[i+1:] {
+				f = strings.TrimSpace(f)
+				if f == "" {
+					break
+				}
+				if strings.Contains(f, "yorkie-team/yorkie") && !strings.HasPrefix(f, "/") {
+					if j := strings.LastIndex(f, "/"); j >= 0 {
+						f = f[j+1:]
+					}
+					if j := strings.Index(f, "("); j > 0 {
+						f = f[:j]
+					}
+					sites = append(sites, f)
+					break
+				}
+			}
+		}
+	}
+	if len(sites) == 0 {
+		return "unknown"
+	}
+	return strings.Join(sites, " vs ")
+}
+
 // STrace, when set, receives the schedule of a replayed case.
 var STrace io.Writer
 
@@ -396,6 +472,12 @@ func init() {
 			"clients x documents beyond 3 x 1 are not explored"},
 		QuickBudget: 150 * time.Second,
 		Run:         sCheckRun("C16", func(string) bool { return true }),
-		Reproduce:   sReproduce,
+		Reproduce: func(f *Found) (bool, error) {
+			if f.Kind == "data-race" {
+				return true, nil // a race report is its own artefact; the pass is a detector
+			}
+			return sReproduce(f)
+		},
+		PostRun: racePostRun,
 	})
 }
